@@ -483,11 +483,27 @@ def mol_graph(rep):
         rep.ob("O10.3", "R3b", sg, okops, c, "the molecule is sanitised by RDKit's full default pipeline in one call: running a subset of the stages, or the stages in another "
                "order (e.g. the valence check before the clean-up of hypervalent nitro / N-oxide notation), rejects molecules that are sanitisable", node=c)
     dn = default_of(sg, "node_attrs")
+    keep = None
     try:
         keep = set(const(dn))
     except Exception:
-        keep = set()
-    rep.ob("O10.3", "R3b", sg, {"element", "charge", "hcount", "atom_map", "aromatic"} <= keep, sorted(keep), "smiles_to_graph keeps the attributes graph_to_smi needs")
+        # the default is not a literal list (a sentinel resolved by a helper, a module-level constant): look for the literal the body falls back to
+        from ..core import module_const as _mc
+        cands = []
+        for c_ in walk_local(sg.node):
+            if isinstance(c_, ast.Call) and any(isinstance(a_, ast.Name) and a_.id == "node_attrs" for a_ in c_.args):
+                for a_ in list(c_.args) + [k_.value for k_ in c_.keywords]:
+                    try:
+                        v_ = _mc(sg.module, a_)
+                        if isinstance(v_, (list, tuple)) and v_ and all(isinstance(x_, str) for x_ in v_):
+                            cands.append(set(v_))
+                    except Exception:
+                        pass
+        if len(cands) == 1:
+            keep = cands[0]
+    need_ = {"element", "charge", "hcount", "atom_map", "aromatic"}
+    rep.ob("O10.3", "R3b", sg, None if keep is None else need_ <= keep, sorted(keep) if keep is not None else "default of node_attrs",
+           "smiles_to_graph keeps the attributes graph_to_smi needs")
 
 
 # ------------------------------------------------------------------ O10.4
